@@ -15,3 +15,5 @@ def run(ctx):
     ctx.add_model(res)
     stages.chan_family(ctx, ["C02."], lambda s: s["pre"]["status"] in ("Completed", "Failed", "Cancelled"))
     ctx.exhaustive = False
+    # manager level: the same property on a real manager (messages, API calls, transport callbacks)
+    stages.mgr_family(ctx, ["C02."], ["all"], lambda s: s["t"]["hasPre"] and s["t"]["pre"]["status"] in ("Completed", "Failed", "Cancelled"), quick_n=3000, model=not ctx.quick(), sims=False, invariants=["M_C02_Final"])
